@@ -550,6 +550,47 @@ func init() {
 				bad := ""
 				usesFallback := false
 				fb := s.fallbackFields()
+				// locals of the enclosing functions that hold a fallback hook (`fallback := options.blockFallback`)
+				fbLocal := map[types.Object]bool{}
+				if len(fb) > 0 {
+					isFbSel := func(e ast.Expr) bool {
+						se, ok := e.(*ast.SelectorExpr)
+						if !ok {
+							return false
+						}
+						if sel := info.Selections[se]; sel != nil {
+							if v, ok := sel.Obj().(*types.Var); ok && fb[v] {
+								return true
+							}
+						}
+						return false
+					}
+					ast.Inspect(s.encl[0], func(x ast.Node) bool {
+						switch a := x.(type) {
+						case *ast.AssignStmt:
+							if len(a.Lhs) == len(a.Rhs) {
+								for i, l := range a.Lhs {
+									if id, ok := l.(*ast.Ident); ok && isFbSel(a.Rhs[i]) {
+										if o := info.ObjectOf(id); o != nil {
+											fbLocal[o] = true
+										}
+									}
+								}
+							}
+						case *ast.ValueSpec:
+							if len(a.Names) == len(a.Values) {
+								for i, id := range a.Names {
+									if isFbSel(a.Values[i]) {
+										if o := info.ObjectOf(id); o != nil {
+											fbLocal[o] = true
+										}
+									}
+								}
+							}
+						}
+						return true
+					})
+				}
 				for b := range reachableBlocks(sp.blocked) {
 					for _, n := range b.Nodes {
 						if hs := s.handlerCalls(n); len(hs) > 0 && bad == "" {
@@ -565,6 +606,9 @@ func init() {
 										usesFallback = true
 									}
 								}
+							}
+							if id, ok := x.(*ast.Ident); ok && fbLocal[info.Uses[id]] {
+								usesFallback = true
 							}
 							return true
 						})
